@@ -17,6 +17,9 @@ MOTIFS = {
     'collinear3': (['O', 'C', 'S'], [(0, 0, 0), (1.2, 0, 0), (2.7, 0, 0)]),
     # site pattern B for planar3: other centre element, the two ligand atoms (same elements as in planar3) pulled in by 0.07 A
     'planar3B': (['Si', 'N', 'O'], [(0, 0, 0), (1.23, 0, 0), (-0.376, 1.034, 0)]),
+    # chain fragments exactly one cell edge long (cells chain4 / chain4t): first and last atom are periodic images of one another
+    'CuOCu': (['Cu', 'O', 'Cu'], [(0, 0, 0), (2.0, 0.3, 0), (4.0, 0, 0)]),
+    'CCC-chain': (['C', 'C', 'C'], [(0, 0, 0), (2.0, 0, 0), (4.0, 0, 0)]),
     'pair': (['C', 'H'], [(0, 0, 0), (1.09, 0, 0)]),
     'single': (['H'], [(0, 0, 0)]),
     'singleF': (['F'], [(0, 0, 0)]),
@@ -66,6 +69,8 @@ CELLS['tr'] = (np.array(CELLS['t1']) @ _RM.T).tolist()      # t1 in an arbitrary
 CELLS['big'] = [[60., 0, 0], [0, 61., 0], [0, 0, 62.]]
 CELLS['bigt'] = [[60., 0, 0], [-14., 58., 0], [9., -11., 55.]]
 CELLS['t5'] = [[10., 0, 0], [8., 6., 0], [1.5, -2., 9.]]      # strongly tilted: 37 degrees between a and b, perpendicular height / |b| = 0.59
+CELLS['chain4'] = [[4.0, 0, 0], [0, 10., 0], [0, 0, 10.]]       # as long as the chain patterns below: an occurrence holds an atom AND its own image
+CELLS['chain4t'] = [[4.0, 0, 0], [1.0, 10., 0], [0.5, -1.0, 10.]]
 CELLS['orot'] = [[6.0, 8.0, 0.0], [-8.8, 6.6, 0.0], [0.0, 0.0, 12.0]]     # mutually perpendicular vectors (10, 11, 12) NOT aligned with x, y, z
 
 POSES = {
